@@ -40,6 +40,16 @@ for pid, (design, text) in sorted(TREE.items()):
     checks.append(check(pid, "tree", design, text,
         "property-based testing: proptest-generated programs (byte decoder), trace + reference model oracle, structural shrinking, JSON replay", NOTE))
 
+checks.append(check("C14", "acc14", "6/C14",
+    "accessor oracle: per system run of 1..n accessor calls (React, Reactive, ReactiveMut, ReactRes, ReactResMut, World/ReactCommands triggers, ReactCommands::insert, despawns) a value/liveness model predicts the multiset of reactions seen by type-wide and entity-scoped probe reactors, the stored values and every return value",
+    "property-based testing: proptest-generated call histories, reference model oracle, shrinking, JSON replay",
+    "exploration only; probe reactors are the observation device; type-wide mutation reactions for a dead entity are accepted either way"))
+checks.append(check("C17", "sys17", "6/C17",
+    "syscall oracle: histories of calls over syscall / named_syscall / register_named_system + named_syscall_direct / spawn_system + spawned_syscall / Commands::syscall / Commands::spawned_syscall with nesting and command-issued calls; a key -> count model predicts every return value, the order of every queued-command effect visible on return, and every error",
+    "property-based testing: proptest-generated call histories, reference model oracle, shrinking, JSON replay",
+    "exploration only; re-entering a running syscall/named key is never generated (documented as unsupported)"))
+checks.sort(key=lambda c: c["property_id"])
+
 ALL = [f"C{i:02d}" for i in range(1, 19)]
 claimed = {c["property_id"] for c in checks}
 PENDING = {
@@ -64,6 +74,8 @@ manifest = {
    "add_only": True,
  },
  "engines": [
+   {"name": "acc14", "path": "/verif/harness/src/acc14.rs", "serves_properties": ["C14"], "kind_free_text": "accessor call histories vs value/liveness model, probe reactors"},
+   {"name": "sys17", "path": "/verif/harness/src/sys17.rs", "serves_properties": ["C17"], "kind_free_text": "syscall-family call histories vs key->count model"},
    {"name": "tree", "path": "/verif/harness/src/{program,exec,model,tree}.rs", "serves_properties": sorted(TREE.keys()),
     "kind_free_text": "generated world-mode programs over a small closed universe, executed against the real crate; one totally ordered trace of harness markers + hook events; reference model rebuilt from applied ops/facts; per-property oracles"},
  ],
